@@ -6,6 +6,9 @@ SPEC = {
         {"name": "probes", "pkg": O4, "kind": "rapid", "run": "^TestVerifC03Probes$",
          "quick": {"checks": 500, "shards": 8, "timeout": 300},
          "thorough": {"checks": 40000, "shards": 16, "timeout": 3000}},
+        {"name": "concurrent", "pkg": O4, "kind": "rapid", "run": "^TestVerifC03Concurrent$",
+         "quick": {"checks": 100, "shards": 4, "timeout": 300},
+         "thorough": {"checks": 2500, "shards": 16, "timeout": 3000}},
     ],
 }
 
